@@ -41,6 +41,12 @@ RevSeq(s) == [k \in 1..Len(s) |-> s[Len(s) + 1 - k]]
 RECURSIVE Digits(_, _)
 Digits(n, D) == IF D = <<>> THEN <<>>
                 ELSE Digits(n \div D[Len(D)], SubSeq(D, 1, Len(D) - 1)) \o <<n % D[Len(D)]>>
+RECURSIVE FromDigits(_, _)
+FromDigits(g, D) == IF g = <<>> THEN 0 ELSE FromDigits(SubSeq(g, 1, Len(g) - 1), SubSeq(D, 1, Len(D) - 1)) * D[Len(D)] + g[Len(g)]
+\* the transpose of a map between self-dual objects (bend every wire round with nested cups and caps): the wires come
+\* out in reverse order, the entries are those of the matrix transpose
+TransposeT(A) == T(RevSeq(A.cod), RevSeq(A.dom),
+   LAMBDA r, c : Ent(A, FromDigits(RevSeq(Digits(c, RevSeq(A.dom))), A.dom), FromDigits(RevSeq(Digits(r, RevSeq(A.cod))), A.cod)))
 \* cups(t, t.r): t (x) reverse(t) -> (), the nested cups pairing wire m of t with its mirror image
 CupT(D) == T(D \o RevSeq(D), <<>>,
              LAMBDA r, c : LET g == Digits(r, D \o RevSeq(D)) k == Len(D) IN
